@@ -1,15 +1,368 @@
 //go:build verif
 
+// Check C16: the import workload (tools.ImportSnapshot on the journaling FS)
+// and the single-fault (error) mode.
 package dragonboat
 
 import (
+	"fmt"
+	"runtime"
+	"sort"
+	"strings"
+	"sync"
+	"sync/atomic"
+
+	"github.com/lni/dragonboat/v4/config"
+	"github.com/lni/dragonboat/v4/internal/server"
 	"github.com/lni/dragonboat/v4/internal/verifkit"
+	"github.com/lni/dragonboat/v4/internal/verifkit/journalfs"
+	"github.com/lni/dragonboat/v4/internal/verifkit/memlogdb"
+	"github.com/lni/dragonboat/v4/internal/vfs"
+	"github.com/lni/dragonboat/v4/raftio"
+	"github.com/lni/dragonboat/v4/tools"
 )
 
-func (w *c16Run) runImport() { panic("todo") }
+// ------------------------------------------------------------ import
 
-func c16ImportDirs() (string, string) { return c16SnapDir, c16SMDir }
+const (
+	c16NHDir     = "/c16/nh"
+	c16ExportDir = "/c16/export"
+)
 
-func c16ReplayErr(c *c16Ctx, rp c16Replay) {}
+type c16Factory struct{ db raftio.ILogDB }
 
-func c16ErrMain(run *verifkit.Run, res *verifkit.Result) {}
+func (f *c16Factory) Create(config.NodeHostConfig, config.LogDBCallback, []string, []string) (raftio.ILogDB, error) {
+	return f.db, nil
+}
+func (f *c16Factory) Name() string { return "verif-memlogdb" }
+
+func c16NHConfig(fs vfs.IFS, db raftio.ILogDB) config.NodeHostConfig {
+	c := config.NodeHostConfig{NodeHostDir: c16NHDir, RTTMillisecond: 1, RaftAddress: c16Peers()[c16Self], DeploymentID: c16DID}
+	c.Expert.FS = fs
+	c.Expert.LogDBFactory = &c16Factory{db: db}
+	if err := c.Prepare(); err != nil { // NewNodeHost does this first
+		panic(err)
+	}
+	return c
+}
+
+var c16ImportDirsOnce struct {
+	sync.Once
+	snap string
+}
+
+// c16ImportDirs returns the snapshot directory server.Env assigns to the
+// replica (the import workload uses the real directory layout because
+// tools.ImportSnapshot computes it itself).
+func c16ImportDirs() (string, string) {
+	c16ImportDirsOnce.Do(func() {
+		fs := vfs.NewMemFS()
+		env, err := server.NewEnv(c16NHConfig(fs, nil), fs)
+		if err != nil {
+			panic(err)
+		}
+		c16ImportDirsOnce.snap = env.GetSnapshotDir(c16DID, c16Shard, c16Self)
+	})
+	return c16ImportDirsOnce.snap, c16SMDir
+}
+
+// runImport: a replica with a recorded snapshot and a log exports a snapshot
+// (NodeHost.RequestSnapshot with Exported), is stopped, and the exported
+// snapshot is imported with tools.ImportSnapshot (same members).
+func (w *c16Run) runImport() {
+	w.mkdirs()
+	db := &c16DB{DB: memlogdb.New(), log: w.log}
+	nhc := c16NHConfig(w.hook, db)
+	env, err := server.NewEnv(nhc, w.hook)
+	if err != nil {
+		panic(err)
+	}
+	// what NodeHost does before it starts replicas
+	if _, _, err := env.CreateNodeHostDir(c16DID); err != nil {
+		panic(err)
+	}
+	if err := env.CheckNodeHostDir(nhc, db.BinaryFormat(), db.Name()); err != nil {
+		panic(err)
+	}
+	if err := env.CreateSnapshotDir(c16DID, c16Shard, c16Self); err != nil {
+		panic(err)
+	}
+	if err := w.hook.MkdirAll(c16ExportDir, 0755); err != nil {
+		panic(err)
+	}
+	if f, err := w.hook.OpenDir("/c16"); err == nil {
+		_ = f.Sync()
+		_ = f.Close()
+	}
+	snapdir, smdir := c16ImportDirs()
+	if got := env.GetSnapshotDir(c16DID, c16Shard, c16Self); got != snapdir {
+		panic("c16: snapshot dir mismatch " + got + " " + snapdir)
+	}
+	w.rep = c16BootSettled(c16Self, w.cfg.Kind, w.hook, db, snapdir, smdir, func(l string) { w.jfs.Mark(l) })
+	w.booted()
+	w.feed(8, 8)
+	w.save(1)
+	w.feed(12, 12)
+	w.ev("export")
+	rs, err := w.rep.node.requestSnapshot(SnapshotOption{Exported: true, ExportPath: c16ExportDir}, 1000)
+	if err != nil {
+		panic(err)
+	}
+	w.rep.settle()
+	select {
+	case res := <-rs.ResultC():
+		if !res.Completed() || res.SnapshotIndex() != 12 {
+			panic(fmt.Sprintf("c16: export failed: %v %d", res.code, res.SnapshotIndex()))
+		}
+	default:
+		panic("c16: export did not complete")
+	}
+	w.feed(14, 14)
+	w.ev("stopped")
+	w.rep.chunks.Close()
+	// ---- the operator imports the exported snapshot
+	w.ev("import")
+	src := w.hook.PathJoin(c16ExportDir, server.GetSnapshotDirName(12))
+	if err := tools.ImportSnapshot(nhc, src, c16Peers(), c16Self); err != nil {
+		panic(fmt.Sprintf("ImportSnapshot failed: %v", err))
+	}
+	w.jfs.Mark("ack:import:12")
+}
+
+// ------------------------------------------------------------ error mode
+
+// c16ErrCase runs one workload with exactly mutating FS operation #k (counted
+// from the end of the first boot) failing once. The run stops at the first
+// panic (that is what the engine / NodeHost do with these errors:
+// panicNow); afterwards the process is gone and the replica restarts from what
+// is durable. If nothing panicked the fault was swallowed: then everything
+// acknowledged must hold as well and the workload must have run to its end.
+type c16ErrResult struct {
+	K       int
+	Reached bool
+	Site    string
+	Phase   string
+	Result  string // panic | swallowed
+	After   string
+	F       *c16Finding
+}
+
+func c16ErrCase(cfg c16Cfg, k int) (er c16ErrResult) {
+	er.K = k
+	w := c16NewRun(cfg)
+	// the fault is armed after the first boot
+	w.afterBoot = func() { w.jfs.FailAt(w.baseMut+k, nil) }
+	pan := verifkit.Catch(w.run)
+	failed := w.jfs.Failed()
+	if failed == nil {
+		if pan != "" {
+			er.F = &c16Finding{Key: fmt.Sprintf("C16:%s:%s fails without any fault", cfg.family(), w.stage),
+				Desc: fmt.Sprintf("workload %s with fault #%d not reached: phase %s panicked: %s", cfg.name(), k, w.stage, c16Short(pan)), Replay: c16Replay{Mode: "errfs", Cfg: cfg, K: k}}
+		}
+		return er
+	}
+	if !w.valid {
+		panic("c16: error mode run ended with an invalid schedule: " + w.why)
+	}
+	er.Reached = true
+	er.Site = c16SiteClass(failed)
+	j := w.jfs.Journal()
+	er.Phase = c16MetaOf(j, failed.Seq).Phase
+	er.Result = "panic"
+	if pan == "" {
+		er.Result = "swallowed"
+	}
+	if pan != "" && !strings.Contains(pan, "injected") {
+		// a panic that does not carry the injected error: still a fail-stop, note it
+		er.Result = "panic(other: " + c16Short(pan) + ")"
+		if strings.Contains(pan, "c16:") {
+			er.F = &c16Finding{Key: fmt.Sprintf("C16:%s:harness panic after fault at %s", cfg.family(), er.Site),
+				Desc: fmt.Sprintf("workload %s, fault #%d (%s) in phase %s: %s", cfg.name(), k, er.Site, er.Phase, c16Short(pan)), Replay: c16Replay{Mode: "errfs", Cfg: cfg, K: k, Site: er.Site}}
+			return er
+		}
+	}
+	// restart from the durable state (and from the visible state: the process
+	// died, the machine did not)
+	for _, im := range []journalfs.Image{{Kind: "drop"}, {Kind: "keep"}} {
+		// the leader has the whole stream of the fault free run
+		cc := &c16Case{Cfg: cfg, J: j, P: len(j.Ops), Im: im, Ops: w.log.ops, L: c16CleanL(cfg)}
+		got, f, _, _ := cc.check(nil, false)
+		if f != nil {
+			how := "the failing call panicked (process death)"
+			if pan == "" {
+				how = "NO error or panic was raised (fault swallowed), the workload ran to its end"
+			}
+			clause := strings.SplitN(f.Key, ":", 5)[4] // C16 : family : where : loss : clause
+			f.Key = fmt.Sprintf("C16:%s:FS fault in %s:%s:%s", cfg.family(), er.Phase, er.Result0(), clause)
+			f.Desc = fmt.Sprintf("workload %s, mutating FS operation #%d (%s) failed once in phase %s; %s; restart from the %s image afterwards: %s", cfg.name(), k, er.Site, er.Phase, how, im.Kind, f.Desc)
+			f.Replay = c16Replay{Mode: "errfs", Cfg: cfg, K: k, Site: er.Site}
+			er.F = f
+			return er
+		}
+		er.After = fmt.Sprintf("recorded %d applied %d", got.Recorded, got.Applied)
+	}
+	return er
+}
+
+func (er c16ErrResult) Result0() string {
+	if strings.HasPrefix(er.Result, "panic") {
+		return "panic"
+	}
+	return er.Result
+}
+
+// c16SiteClass names the failed operation without volatile parts.
+func c16SiteClass(o *journalfs.Op) string {
+	p := o.Path
+	if o.Path2 != "" {
+		p = o.Path2
+	}
+	base := p
+	if i := strings.LastIndexByte(p, '/'); i >= 0 {
+		base = p[i+1:]
+	}
+	dir := ""
+	if i := strings.LastIndexByte(p, '/'); i > 0 {
+		d := p[:i]
+		if k := strings.LastIndexByte(d, '/'); k >= 0 {
+			dir = d[k+1:]
+		}
+	}
+	cls := func(s string) string {
+		switch {
+		case strings.HasSuffix(s, ".generating"):
+			return "<gen-dir>"
+		case strings.HasSuffix(s, ".receiving"):
+			return "<recv-dir>"
+		case strings.HasSuffix(s, ".gbsnap"):
+			return "<snapshot-file>"
+		case strings.HasSuffix(s, ".shrunk"):
+			return "<shrunk-file>"
+		case strings.HasPrefix(s, "snapshot-") && !strings.Contains(s, "."):
+			return "<final-dir>"
+		}
+		return s
+	}
+	if dir != "" {
+		return string(o.Kind) + " " + cls(dir) + "/" + cls(base)
+	}
+	return string(o.Kind) + " " + cls(base)
+}
+
+func c16ErrMain(run *verifkit.Run, res *verifkit.Result) {
+	c16Quiet()
+	res.MaxViolations = 40
+	res.Rule = c16Rule()
+	res.Assumptions = append(c16Assumptions(), "a failed FS operation has no effect and only that one operation fails (one-shot fault); the step / apply / snapshot workers turn a returned error into a panic (panicNow), which ends the process")
+	c := &c16Ctx{Run: run, Res: res, seen: verifkit.NewSet64(), st: verifkit.NewSet64(), n: map[string]int64{}}
+	defer func() {
+		keys := make([]string, 0, len(c.n))
+		for k := range c.n {
+			keys = append(keys, k)
+		}
+		sort.Strings(keys)
+		for _, k := range keys {
+			res.Extra[k] = c.n[k]
+		}
+	}()
+	if run.Replay != "" {
+		var rp c16Replay
+		run.LoadReplay(&rp)
+		c16DoReplay(c, rp)
+		return
+	}
+	cfgs := []c16Cfg{}
+	for _, wl := range []string{"save", "recv"} {
+		for _, kind := range []string{c16Regular, c16OnDisk} {
+			cfgs = append(cfgs, c16Cfg{WL: wl, Kind: kind})
+		}
+	}
+	cfgs = append(cfgs, c16Cfg{WL: "import", Kind: c16Regular})
+	for _, kind := range []string{c16Regular, c16OnDisk} {
+		// one representative schedule of the race: chunks early, record late
+		cfgs = append(cfgs, c16Cfg{WL: "race", Kind: kind, X: 20, K1: 3, K2: 12})
+	}
+	type item struct {
+		cfg c16Cfg
+		k   int
+	}
+	items := []item{}
+	for _, cfg := range cfgs {
+		w, f := c16CleanRun(cfg)
+		if f != nil {
+			c.report(f)
+			continue
+		}
+		if !w.valid {
+			panic("c16: error mode schedule is not valid: " + w.why)
+		}
+		n := w.jfs.Mutations() - w.baseMut
+		c.add(cfg.family()+".errfs.fault_points", int64(n))
+		for k := 0; k < n; k++ {
+			items = append(items, item{cfg, k})
+		}
+	}
+	var next int64 = -1
+	var wg sync.WaitGroup
+	for g := 0; g < runtime.GOMAXPROCS(0); g++ {
+		wg.Add(1)
+		go func() {
+			defer wg.Done()
+			for {
+				i := int(atomic.AddInt64(&next, 1))
+				if i >= len(items) {
+					return
+				}
+				if !run.Mine(uint64(i)) {
+					continue
+				}
+				if run.Expired() {
+					res.Cap("deadline reached in error mode")
+					return
+				}
+				it := items[i]
+				er := c16ErrCase(it.cfg, it.k)
+				atomic.AddInt64(&res.Evaluations, 1)
+				fam := it.cfg.family()
+				if !er.Reached {
+					res.Outcome(fam + "|errfs|fault ordinal not reached")
+					res.Cap(fmt.Sprintf("%s: fault ordinal %d was not reached (the run is not deterministic?)", it.cfg.name(), it.k))
+					continue
+				}
+				atomic.AddInt64(&res.DistinctNontrivial, 1)
+				c.add(fam+".errfs.exercised", 1)
+				if er.F != nil {
+					c.report(er.F)
+					continue
+				}
+				res.Outcome(fmt.Sprintf("%s|errfs|%s in %s|%s|restart ok", fam, er.Site, er.Phase, er.Result0()))
+				res.Sample(4, map[string]interface{}{"workload": it.cfg.name(), "fault": it.k, "site": er.Site, "phase": er.Phase, "result": er.Result, "after_restart": er.After})
+			}
+		}()
+	}
+	wg.Wait()
+}
+
+func c16ReplayErr(c *c16Ctx, rp c16Replay) {
+	// the runs are deterministic (no goroutines): ordinal K is exact
+	er := c16ErrCase(rp.Cfg, rp.K)
+	atomic.AddInt64(&c.Res.Evaluations, 1)
+	if er.F != nil {
+		c.report(er.F)
+	}
+}
+
+var c16CleanLCache sync.Map
+
+// c16CleanL is the leader's last index in the fault free run of cfg.
+func c16CleanL(cfg c16Cfg) uint64 {
+	if v, ok := c16CleanLCache.Load(cfg.name()); ok {
+		return v.(uint64)
+	}
+	w, f := c16CleanRun(cfg)
+	if f != nil || !w.valid {
+		panic("c16: no clean run for " + cfg.name())
+	}
+	c16CleanLCache.Store(cfg.name(), w.L)
+	return w.L
+}
